@@ -16,15 +16,15 @@ from props import _c14_gen as gen
 from props._c14_impl import F, fstr
 
 ID = "C14"
-LEAN_MODULES = ["NiftyVerif.Props.C14"]
+LEAN_MODULES = ["NiftyVerif.Props.C14", "NiftyVerif.Model.CgClassicDriver"]
 DRIVER = "Driver/C14.lean"
 OBLIGATIONS = ["NiftyVerif.C14." + t for t in (
     "qe_consistent", "qe_at_consistent", "cg_grad_invariant", "cg_value_correct",
-    "ctrl_converged_criterion", "ctrl_count_sound",
+    "ctrl_converged_criterion", "ctrl_start_converged_criterion", "ctrl_count_sound",
     "gradnorm_ctrl_sound", "gradinf_ctrl_sound", "deltaE_ctrl_sound", "absdeltaE_ctrl_sound", "stochastic_ctrl_sound",
     "cg_controller_replay", "cg_verdict_sound", "cg_gradnorm_sound",
     "cg_alpha_positive_or_error", "cg_no_error_spd", "cg_energy_monotone",
-    "ie_modes_available", "inversion_enabler_solves")]
+    "ie_modes_available", "inversion_enabler_direct", "inversion_enabler_solves")]
 RULE = ("cases: (qe) QuadraticEnergy at/at_with_grad on integer systems, exact; (ctrl) each of the 5 controllers fed "
         "with generated observation sequences (exact dyadic), all levels/limits incl. degenerate; (cg) generated "
         "integer HPD systems real/complex, +-preconditioner, every controller, nreset 1..5/20, whole trajectory compared "
